@@ -136,6 +136,14 @@ PROPS = {
         "assumptions": ["single failure injection per step; Unreserve/close-bid calls count as released/closed even if the call itself fails"],
         "units": [{"pkg": "provider/bidengine", "run": "^TestVerif_C13$", "checks": {Q: 300, T: 5000}, "shards": {Q: 4, T: 16}, "race": {Q: False, T: True}, "timeout": {Q: 600, T: 3000}, "shrinktime": "30s"}],
     },
+    "C14": {
+        "level": "fault_enumeration", "floor": 0.4,
+        "technique": "property-based testing with a harness-owned schedule: real service loop + deployment managers + inventory over a real bus; Deploy/TeardownLease gated, hostname-reservation reply held by the harness; bus barrier for acknowledgements; call-log oracle",
+        "level_text": "Generated schedules over {manifest received (version k), lease closed, hostname reply ok/error, finish the running cluster operation ok/error, shutdown} of length <= 10 drive the real cluster service. A barrier event that travels the same bus acknowledges that the service loop (and, through its synchronous hand-off, the manager) has processed each stimulus. Over the call log: cluster operations of the lease never overlap; no Deploy starts after the lease-closed signal was accepted; after an accepted close (without shutdown) teardown starts after the last deploy finished, the reservation disappears from the inventory and the hostnames become reservable by another deployment; without close/failure/shutdown the last deploy carries the most recently received manifest.",
+        "level_note": "Trusted: the barrier (bus FIFO + synchronous manager hand-off); bounded waits of 20 s only detect wedging; teardown errors are limited to two attempts (the code retries with back-off).",
+        "assumptions": ["one lease per schedule; the deployment monitor's first health check (>= 4 s) lies beyond the duration of a case"],
+        "units": [{"pkg": "provider/cluster", "run": "^TestVerif_C14$", "checks": {Q: 120, T: 2500}, "shards": {Q: 4, T: 16}, "race": {Q: False, T: True}, "timeout": {Q: 900, T: 3000}, "shrinktime": "40s"}],
+    },
     "C15": {
         "level": "exploration",
         "technique": "property-based testing: rapid state machine vs per-subscriber FIFO model + generated concurrent runs with schedule-independent order oracle",
